@@ -143,12 +143,24 @@ pub(crate) fn verify_nonmembership<TC: Configuration>(
         ));
     }
 
-    let lcp_hash = TC::compute_parent_hash_from_children(
-        &proof.longest_prefix_children[0].value,
-        &proof.longest_prefix_children[0].label.value::<TC>(),
-        &proof.longest_prefix_children[1].value,
-        &proof.longest_prefix_children[1].label.value::<TC>(),
-    );
+    let empty_child = crate::AzksElement {
+        label: TC::empty_label(),
+        value: TC::empty_node_hash(),
+    };
+    let lcp_hash = if proof.longest_prefix_children[0] == empty_child
+        && proof.longest_prefix_children[1] == empty_child
+    {
+        // A node without any children can only be the root of an empty tree, whose value
+        // is fixed rather than derived from two (empty) children
+        TC::empty_root_value()
+    } else {
+        TC::compute_parent_hash_from_children(
+            &proof.longest_prefix_children[0].value,
+            &proof.longest_prefix_children[0].label.value::<TC>(),
+            &proof.longest_prefix_children[1].value,
+            &proof.longest_prefix_children[1].label.value::<TC>(),
+        )
+    };
     if lcp_children != proof.longest_prefix_membership_proof.label
         || lcp_hash != proof.longest_prefix_membership_proof.hash_val
     {
